@@ -61,10 +61,41 @@ def norm_hash(h):
     return '' if h is None else h
 
 
+_TIE = {}
+
+
+def translated(area):
+    """did this run's extraction of `area` follow the source (True), or is the model the kept baseline (False)?
+    (lean/DeepModel/Extracted/status.json is written by the extraction step of the run)"""
+    if area not in _TIE:
+        import json
+        import os
+        p = os.path.join(os.path.dirname(os.path.dirname(os.path.abspath(__file__))),
+                         'lean', 'DeepModel', 'Extracted', 'status.json')
+        try:
+            _TIE[area] = json.load(open(p)).get(area) == 'ok'
+        except Exception:
+            _TIE[area] = True
+    return _TIE[area]
+
+
+def settled(t):
+    return t['queued'] == 0 and t['pre'] == 0 and t['holding'] == 0
+
+
 def compare_traces(ops, obs, resp, limit=4):
-    """model trace (Lean driver) vs implementation trace, step by step"""
+    """model trace (Lean driver) vs implementation trace, step by step.
+
+    When the model is the regenerated translation of the current source every step is compared, in flight too (queue
+    lengths, region bookkeeping, what is installed).  When the translator could not follow the source and the baseline
+    model stands in, the regions inside a task are the old code's, not necessarily the new code's: then only what the
+    statement speaks about is compared — hash, hash sent, polled configuration, handles at every step, and what is
+    installed whenever both sides have nothing in flight."""
     if 'error' in resp:
         return ['model error: ' + resp['error']]
+    if obs.get('bench_error'):
+        return ['the bench could not run the case on this implementation: ' + obs['bench_error']]
+    strict = translated('configsvc')
     d = []
     mt, it = resp['trace'], obs['trace']
     if len(mt) != len(it):
@@ -72,17 +103,23 @@ def compare_traces(ops, obs, resp, limit=4):
     for n, (op, m, i) in enumerate(zip(ops, mt, it)):
         if 'raised' in i:
             d.append(f'op {n} {op["op"]}: implementation raised {i["raised"]}')
-        for key in ('queued', 'pre', 'holding'):
-            if m[key] != i[key]:
-                d.append(f'op {n} {op["op"]}: {key} model {m[key]} vs implementation {i[key]}')
+        if strict:
+            for key in ('queued', 'pre', 'holding'):
+                if m[key] != i[key]:
+                    d.append(f'op {n} {op["op"]}: {key} model {m[key]} vs implementation {i[key]}')
         if norm_hash(m['hash']) != norm_hash(i['hash']):
             d.append(f'op {n} {op["op"]}: hash model {m["hash"]!r} vs implementation {i["hash"]!r}')
-        for key in ('installed', 'custom', 'polled'):
+        keys = ['polled']
+        if strict or (settled(m) and settled(i)):
+            keys.append('installed')
+        if i.get('custom') is not None:
+            keys.append('custom')
+        for key in keys:
             if sorted(m[key]) != sorted(i[key]):
                 d.append(f'op {n} {op["op"]}: {key} model {sorted(m[key])} vs implementation {sorted(i[key])}')
         if 'req_hash' in m and norm_hash(m['req_hash']) != norm_hash(i.get('req_hash')):
             d.append(f'op {n}: hash sent model {m["req_hash"]!r} vs implementation {i.get("req_hash")!r}')
-        if 'moved' in m and m['moved'] != i.get('moved'):
+        if strict and 'moved' in m and m['moved'] != i.get('moved'):
             d.append(f'op {n} {op["op"]}: task step taken model {m["moved"]} vs implementation {i.get("moved")}')
         if 'handle' in m and m['handle'] != i.get('handle'):
             d.append(f'op {n}: handle model {m["handle"]} vs implementation {i.get("handle")}')
@@ -240,3 +277,76 @@ class Sched:
                 self.apply()
             else:
                 self.start()
+
+
+# ------------------------------------------------------------------ preemption cases (judged by the oracle only)
+def _u(h, ts, *tps):
+    return {'op': 'poll', 'nc': False, 'rt': 1, 'ts': ts, 'hash': h,
+            'tps': [{'path': p, 'line': l, 'tag': t, 'args': {}} for p, l, t in tps]}
+
+
+def _r(tag, line=10):
+    return {'op': 'register', 'path': 'a.py', 'line': line, 'tag': tag, 'args': {}}
+
+
+def preempt_templates():
+    ap = {'op': 'applyTask', 'i': 0}
+    return [
+        # the poll thread stores a configuration while the application registers
+        {'prefix': [], 'victim': _u('h1', 1000, ('a.py', 10, 's1')), 'intruder': _r('c1')},
+        # ... while the application unregisters
+        {'prefix': [_r('c1'), ap], 'victim': _u('h1', 1000, ('a.py', 10, 's1')),
+         'intruder': {'op': 'unregister', 'handle': 0}},
+        # a second configuration, two registrations live, one of them goes
+        {'prefix': [_u('h1', 5, ('a.py', 10, 's1')), ap, _r('c1'), _r('c2', 11), ap, ap],
+         'victim': _u('h2', 7, ('b.py', 10, 's2'), ('a.py', 10, 's3')), 'intruder': {'op': 'unregister', 'handle': 1}},
+        # NO_CHANGE answer against a registration
+        {'prefix': [_u('h1', 5, ('a.py', 10, 's1')), ap],
+         'victim': {'op': 'poll', 'nc': True, 'rt': 0, 'ts': 9, 'hash': '', 'tps': []}, 'intruder': _r('c1')},
+        # the application registers / unregisters while a configuration arrives
+        {'prefix': [_u('h1', 5, ('a.py', 10, 's1')), ap], 'victim': _r('c1'),
+         'intruder': _u('h2', 7, ('b.py', 10, 's2'))},
+        {'prefix': [_r('c1'), _r('c2', 11), ap, ap], 'victim': {'op': 'unregister', 'handle': 0},
+         'intruder': _u('h1', 7, ('b.py', 10, 's2'))},
+    ]
+
+
+def preempt_cases(kmax=24):
+    out = []
+    for t in preempt_templates():
+        for k in range(1, kmax + 1):
+            c = {'kind': 'preempt', 'k': k}
+            c.update(t)
+            out.append(c)
+    return out
+
+
+def preempt_oracle(case, obs):
+    v = []
+    if obs.get('bench_error'):
+        return []
+    ref = Reference()
+    for op in case['prefix'] + [case['victim'], case['intruder']]:
+        ref.apply(op)
+    # a register made by the victim may complete after the intruder's: handles are not compared, tags are
+    where = f'victim {case["victim"]["op"]} parked before its line #{case["k"]} in tracepoint_config.py ' \
+            f'({obs.get("where")}) while {case["intruder"]["op"]} ran to completion'
+    for who in ('victim', 'intruder'):
+        r = obs.get(who) or {}
+        if 'raised' in r:
+            v.append(f'{where}: {who} raised {r["raised"]}')
+        if 'poll_raised' in r:
+            v.append(f'{where}: poll raised {r["poll_raised"]}')
+    if obs.get('task_raised'):
+        v.append(f'{where}: apply task raised {obs["task_raised"]}')
+    f = obs.get('final')
+    if f is None:
+        return v
+    if sorted(f['installed']) != ref.expected():
+        v.append(f'{where}: after every apply task ran, installed {sorted(f["installed"])}; service configuration + '
+                 f'live registrations = {ref.expected()}')
+    if norm_hash(f['hash']) != norm_hash(ref.latest_hash):
+        v.append(f'{where}: hash {f["hash"]!r}, the last configuration received has {ref.latest_hash!r}')
+    if f.get('custom') is not None and sorted(f['custom']) != sorted(ref.live.values()):
+        v.append(f'{where}: registered in code {sorted(f["custom"])}, expected {sorted(ref.live.values())}')
+    return v
